@@ -136,6 +136,27 @@ static int worker(int argc, char **argv) {
             }
         }
     }
+    /* byte-value layer: every byte value 0..255 in every position of a few templates, every partition, every cfg
+     * (the symbolic alphabet above cannot see a byte that is special only through its numeric value, e.g. 0xFF vs an int sentinel) */
+    {
+        static const char *const TPL[] = { "?", "a?", "?a", "a=?c", "a=?&c=1", "?=1", "a=1?2&b=3&c?d=4", "%?1", "%4?" };
+        for (size_t t = 0; t < sizeof TPL / sizeof TPL[0]; t++) for (int b = 0; b < 256; b++) {
+            if (counter++ % hx_shard_n != hx_shard_i) continue;
+            int len = (int) strlen(TPL[t]);
+            for (int i = 0; i < len; i++) cur[i] = TPL[t][i] == '?' ? (uint8_t) b : (uint8_t) TPL[t][i];
+            curlen = len;
+            uint32_t nmask = len < 2 ? 1 : (len > 8 ? 1u << 7 : 1u << (len - 1));
+            for (int ci = 0; ci < NCFG; ci++) for (uint32_t m = 0; m < nmask; m++) {
+                /* long template: the 7 mask bits are spread over the cut positions around the variable bytes */
+                uint32_t mm = m;
+                if (len > 8) { mm = 0; static const int POS[7] = { 2, 3, 4, 5, 11, 12, 13 }; for (int k = 0; k < 7; k++) if (m >> k & 1) mm |= 1u << POS[k]; }
+                curmask = mm; curcfg = ci;
+                if (hx_inflight_tick()) continue;
+                n_eval++; run_one(ci, cur, len, mm, 0);
+            }
+            if (hx_deadline_hit()) goto out;
+        }
+    }
     /* binding slice through a real request (IDS personality defaults for the URLENCODED context) */
     {
         hx_cfgspec cs; hx_cfgspec_default(&cs); htp_cfg_t *cfg = hx_cfg_get(&cs);
